@@ -53,6 +53,56 @@ def gen_timed(ctx, n):
     return cases
 
 
+def gen_histories(ctx, n):
+    """several runs on one instance (through the exported API, virtual clock): a run that is cut off by the limit is
+    followed by ordinary runs, which must start with a full budget, run normally and report success; the instance
+    may be older than the limit before its first run"""
+    r = ctx.rng.fork('histories')
+    endless = ['while { true } do { ga = 1 }', 'for "_i" from 0 to 1 step 0 do { }', 'for "_i" from 0 to 1 step 0 do { ga = 1 }',
+               'f = { call f }; call f', 'h = [] spawn { while { true } do { ga = 1 } }', 'h = [] spawn { sleep 50 }',
+               'h = [] spawn { waitUntil { false } }', 'f = { [] spawn f }; [] spawn f', 'h = [] spawn { while { true } do { sleep 0.01 } }',
+               'while { true } do { }']
+    plain = ['gb = 1 + 1; gb', 'private _i = 0; while { _i < 8 } do { _i = _i + 1 }; gb = _i', 'gb = [1, 2, 3] apply { _x * 2 }; count gb',
+             'h = [] spawn { gb = 3 }; gb = 2', 'if (isNil "ga") then { gb = 0 } else { gb = ga }; gb']
+    hx = lambda t: t.encode('latin-1').hex()
+    cases = []
+    for i in range(n):
+        limit = r.choice([125, 250])
+        ops = ['new 0 %d 7' % limit]
+        exp = ['ok']
+        tag = 1
+        for _ in range(r.below(3)):
+            ops.append('call 0 %d s %s' % (tag, hx(r.choice(plain)))); exp.append('rc=0'); tag += 1
+        for _ in range(1 + r.below(2)):
+            ops.append('call 0 %d s %s' % (tag, hx(r.choice(endless)))); exp.append('rc=-6'); tag += 1
+            if r.chance(1, 2):
+                ops.append('status 0'); exp.append('rc=0')
+            for _ in range(1 + r.below(2)):
+                ops.append('call 0 %d s %s' % (tag, hx(r.choice(plain)))); exp.append('rc=0'); tag += 1
+        ops.append('status 0'); exp.append('rc=0')
+        cid = 'h%d' % i
+        cases.append({'id': cid, 'ops': '\n'.join(ops), 'exp': exp, 'line': 'api %s %s' % (cid, hexf('\n'.join(ops)))})
+    return cases
+
+
+def history_oracle(c, got):
+    parts = (got or '').split(' ; ')
+    if len(parts) != len(c['exp']):
+        return {'expected': '%d operation results' % len(c['exp']), 'implementation': (got or '')[:400]}
+    for k, (p, e) in enumerate(zip(parts, c['exp'])):
+        m = re.match(r'(ok|null|rc=-?\d+|bad-op)((?:\[-?\d+:\d+:\d+\])*)$', p)
+        op = c['ops'].split('\n')[k]
+        if not m or m.group(1) != e:
+            return {'op_index': k, 'op': op[:200], 'expected': e + (' (the run is cut off by the limit and reported as failed)' if e == 'rc=-6' else
+                                                                    ' (a run behind a cut-off run executes normally)' if e == 'rc=0' else ''),
+                    'implementation': p[:300]}
+        if e == 'rc=0' and op.startswith('call'):
+            levels = [int(lv) for lv, _, _ in re.findall(r'\[(-?\d+):(\d+):(\d+)\]', m.group(2))]
+            if any(lv <= 1 for lv in levels):
+                return {'op_index': k, 'op': op[:200], 'expected': 'no error-level diagnostic in a run that succeeds', 'implementation': p[:300]}
+    return None
+
+
 def oracle(c, got):
     if got is None:
         return {'expected': 'an observation', 'implementation': None}
@@ -114,8 +164,26 @@ def run(ctx):
             if n_mm <= 3:
                 rep.violation('correspondence', {'property': 'C11', 'kind': 'model-vs-implementation', 'seed': ctx.seed, 'case': c['id'],
                                                  'program': c['text'], 'implementation': got, 'model': model.get(c['id']), 'line': c['line']})
-    cov = {'evaluations': len(cases), 'distinct_nontrivial': len(distinct),
-           'rule': 'non-terminating and long programs of every loop kind (while incl. empty body, for incl. step 0, recursion through call, mutually spawning scripts, waitUntil), scheduled and unscheduled, with a time limit, a loop cap and a VM age drawn at random; run with execute(start) under the virtual clock; oracle: the limit is reported (60002), the VM is empty, the run is reported failed, the end time lies in [limit, limit + slack], or — for capped / terminating programs — the program ends cleanly with exactly cap iterations; distinct by (text, limit, cap, age)',
+    hist = gen_histories(ctx, 150 if quick else 3000)
+    himpl, hmodel = vc.run_cases(ctx, hist, timeout_ms=30000)
+    n_h = 0
+    for c in hist:
+        got = himpl.get(c['id'])
+        distinct.add(c['ops'])
+        bad = history_oracle(c, got)
+        if bad:
+            n_or += 1
+            n_h += 1
+            if n_h <= 3:
+                rep.violation('oracle', {'property': 'C11', 'kind': 'runs-on-one-instance', 'seed': ctx.seed, 'case': c['id'], 'history': c['ops'],
+                                         'difference': bad, 'implementation': (got or '')[:1500], 'line': c['line']})
+        elif hmodel is not None and got != hmodel.get(c['id']):
+            n_mm += 1
+            if n_mm <= 3:
+                rep.violation('correspondence', {'property': 'C11', 'kind': 'model-vs-implementation (runs on one instance)', 'seed': ctx.seed, 'case': c['id'],
+                                                 'history': c['ops'], 'implementation': (got or '')[:2000], 'model': (hmodel.get(c['id']) or '')[:2000], 'line': c['line']})
+    cov = {'evaluations': len(cases) + len(hist), 'distinct_nontrivial': len(distinct), 'run_histories': len(hist),
+           'rule': 'non-terminating and long programs of every loop kind (while incl. empty body, for incl. step 0, recursion through call, mutually spawning scripts, waitUntil), scheduled and unscheduled, with a time limit, a loop cap and a VM age drawn at random; run with execute(start) under the virtual clock; oracle: the limit is reported (60002), the VM is empty, the run is reported failed, the end time lies in [limit, limit + slack], or — for capped / terminating programs — the program ends cleanly with exactly cap iterations; distinct by (text, limit, cap, age); in addition histories of runs on one instance with a limit (exported API): ordinary runs, one or two runs that never end of ten kinds, ordinary runs behind them; oracle: -6 for the cut-off run, 0 and no error-level diagnostic for every run behind it, status idle',
            'samples': samples, 'oracle_failures': n_or, 'model_mismatches': n_mm, 'kinds': kinds}
     return rep.finish(cov, ['each single operator call terminates (the property\'s proviso); wall-clock slack of a single long operator call is outside the virtual clock',
-                            'sequences of API calls on one instance are covered by C18'])
+                            'longer histories of API calls with every call type are explored by C18'])
